@@ -1,14 +1,282 @@
 package main
 
 import (
+	"encoding/json"
+	"fmt"
+	"os"
+	"path/filepath"
+	"regexp"
+	"runtime"
+	"sort"
+	"strconv"
+	"strings"
 	"time"
 )
 
-// runCheck is filled in once the first contracts verify (see check_impl).
-func runCheck(eng *Engine, prop, tier, verif string, loadS float64, start time.Time) int {
-	return runCheckImpl(eng, prop, tier, verif, loadS, start)
+type KnownFinding struct {
+	Property   string `json:"property"`
+	Obligation string `json:"obligation"` // "<func> :: <name>" ; a trailing ~n (return ordinal) is ignored
+	Status     string `json:"status"`     // known | fixed
+	Commit     string `json:"commit,omitempty"`
+	What       string `json:"what"`
+	Witness    string `json:"witness,omitempty"`
 }
 
-func runCheckImpl(eng *Engine, prop, tier, verif string, loadS float64, start time.Time) int {
-	return 3
+var reOrd = regexp.MustCompile(`~\d+$`)
+
+func oblID(o *Obl) string { return o.Func + " :: " + reOrd.ReplaceAllString(o.Name, "") }
+
+func loadKnown(verif string) []KnownFinding {
+	var ks []KnownFinding
+	b, err := os.ReadFile(filepath.Join(verif, "known_findings.json"))
+	if err != nil {
+		return nil
+	}
+	if err := json.Unmarshal(b, &ks); err != nil {
+		fmt.Fprintln(os.Stderr, "known_findings.json:", err)
+	}
+	return ks
+}
+
+func runCheck(eng *Engine, prop, tier, verif string, loadS float64, start time.Time) int {
+	seed := 0
+	if s := os.Getenv("VERIF_SEED"); s != "" {
+		seed, _ = strconv.Atoi(s)
+	}
+	keys := eng.contractedKeysForProp(prop)
+	var lemmas []string
+	for _, n := range eng.cf.LemmaOrd {
+		for _, p := range eng.cf.Lemmas[n].Props {
+			if p == prop {
+				lemmas = append(lemmas, n)
+			}
+		}
+	}
+	work, _ := os.MkdirTemp("", "govc-"+prop+"-")
+	defer os.RemoveAll(work)
+	var vcs []*VC
+	var engineErrs []string
+	var underContract, trusted, ifaceOnly []string
+	for _, k := range keys {
+		c := eng.cf.Contracts[k]
+		vc, err := eng.verifyFunc(k)
+		if err != nil {
+			engineErrs = append(engineErrs, err.Error())
+			vc = newVC(eng, k)
+			vc.obls = append(vc.obls, &Obl{Name: "generate", Kind: "stale", Guard: "true", Formula: "false", Func: k,
+				Static: "fail:the generator could not produce the obligations of " + k + ": " + firstLine(err.Error())})
+		}
+		switch {
+		case c.Trusted:
+			trusted = append(trusted, k)
+		case eng.fnByKey[k] == nil && eng.ifaceMethod(k) != nil:
+			ifaceOnly = append(ifaceOnly, k)
+		default:
+			underContract = append(underContract, k)
+		}
+		vcs = append(vcs, vc)
+	}
+	for _, n := range lemmas {
+		vc, err := eng.verifyLemma(n)
+		if err != nil {
+			engineErrs = append(engineErrs, err.Error())
+			vc = newVC(eng, "lemma "+n)
+			vc.obls = append(vc.obls, &Obl{Name: "generate", Kind: "stale", Guard: "true", Formula: "false", Func: "lemma " + n,
+				Static: "fail:the generator could not produce the obligations of lemma " + n + ": " + firstLine(err.Error())})
+		}
+		vcs = append(vcs, vc)
+	}
+	opts := solveOpts{workDir: work, quickS: 4, fullS: 12, parallel: (runtime.NumCPU() + 1) / 2}
+	if tier == "thorough" {
+		opts.quickS, opts.fullS = 10, 60
+	}
+	results := solveAll(vcs, opts)
+	sortResults(results)
+
+	known := loadKnown(verif)
+	knownIdx := map[string]KnownFinding{}
+	for _, k := range known {
+		if k.Property == prop && k.Status == "known" {
+			knownIdx[k.Obligation] = k
+		}
+	}
+
+	nObl, nDis, nCover, nCoverOK := 0, 0, 0, 0
+	byBackend := map[string]int{}
+	var solverMs int64
+	var samples []map[string]interface{}
+	var violations []*Result
+	knownHit := map[string]*Result{}
+	proved := map[string]bool{}
+	failedFn := map[string]bool{}
+	for _, r := range results {
+		solverMs += r.Ms
+		if r.Obl.Kind == "cover" {
+			nCover++
+			if r.Status == "sat" {
+				nCoverOK++
+			} else {
+				violations = append(violations, r)
+				failedFn[r.Obl.Func] = true
+			}
+			continue
+		}
+		id := oblID(r.Obl)
+		if r.Status == "unsat" {
+			nObl++
+			nDis++
+			byBackend[r.Backend]++
+			if len(samples) < 6 || (len(samples) < 12 && r.Obl.Kind == "ensures") {
+				samples = append(samples, map[string]interface{}{"obligation": r.Obl.Func + " :: " + r.Obl.Name, "kind": r.Obl.Kind,
+					"source": fmt.Sprintf("%s:%d", filepath.Base(r.Obl.Pos.Filename), r.Obl.Pos.Line), "backend": r.Backend, "ms": r.Ms, "clause": r.Obl.Note})
+			}
+			continue
+		}
+		if _, ok := knownIdx[id]; ok {
+			if knownHit[id] == nil {
+				knownHit[id] = r
+			}
+			continue
+		}
+		nObl++
+		violations = append(violations, r)
+		failedFn[r.Obl.Func] = true
+	}
+	for _, k := range underContract {
+		if !failedFn[k] {
+			proved[k] = true
+		}
+	}
+
+	// report
+	exit := 0
+	os.MkdirAll(filepath.Join(verif, "replays"), 0o755)
+	for id, r := range knownHit {
+		fmt.Printf("KNOWN-FINDING: property=%s %s %s\n", prop, id, knownIdx[id].What)
+		_ = r
+	}
+	seenV := map[string]bool{}
+	for _, r := range violations {
+		id := oblID(r.Obl)
+		if seenV[id] {
+			continue
+		}
+		seenV[id] = true
+		exit = 1
+		rp := filepath.Join(verif, "replays", sanitize(prop+"__"+r.Obl.Func+"__"+reOrd.ReplaceAllString(r.Obl.Name, ""))+".json")
+		suffix := writeReplay(eng, verif, prop, r, rp)
+		fmt.Printf("VIOLATION property=%s replay=%s %s\n", prop, rp, suffix)
+		fmt.Printf("  failed obligation: %s (%s:%d) status=%s %s\n", id, filepath.Base(r.Obl.Pos.Filename), r.Obl.Pos.Line, r.Status, firstLine(r.Output))
+	}
+	if len(keys)+len(lemmas) == 0 {
+		fmt.Printf("VIOLATION property=%s replay=%s no-failing-input-found\n", prop, filepath.Join(verif, "replays", prop+"__no_contracts.json"))
+		fmt.Println("  no contract in the contract file is tagged with this property")
+		exit = 1
+	}
+	if nObl == 0 && exit == 0 {
+		fmt.Printf("VIOLATION property=%s replay=%s no-failing-input-found\n", prop, filepath.Join(verif, "replays", prop+"__vacuous.json"))
+		fmt.Println("  zero obligations generated (vacuity guard)")
+		exit = 1
+	}
+
+	// evidence
+	abstr := map[string]bool{}
+	assumed := map[string]bool{}
+	for _, vc := range vcs {
+		for a := range vc.abstr {
+			abstr[vc.fnKey+": "+a] = true
+		}
+		for a := range vc.assumed {
+			assumed[a] = true
+		}
+	}
+	var bvRules []string
+	for r := range eng.bvCerts {
+		bvRules = append(bvRules, r)
+	}
+	sort.Strings(bvRules)
+	trustedBase := []string{
+		"go/packages, go/types, go/ssa (golang.org/x/tools v0.29.0) building the SSA of /repo on this run",
+		"govc: SSA->SMT encoder of this project (self-tested by the must-fail corpus /verif/mutants)",
+		"SMT back ends: z3 5.1.0, z3 4.8.12, cvc5 1.0 (an obligation counts as discharged when one answers unsat)",
+		"byte strings compared only through an order-embedding rank (sound: byte strings under lexicographic order embed into the reals)",
+		"integers are mathematical; machine ranges assumed for values read from memory; overflow obligations only in functions marked `overflow check`",
+	}
+	for _, t := range trusted {
+		trustedBase = append(trustedBase, "trusted contract: "+t+" ("+eng.cf.Contracts[t].Attrs["trusted"]+")")
+	}
+	var provedL []string
+	for k := range proved {
+		provedL = append(provedL, k)
+	}
+	sort.Strings(provedL)
+	var knownL []string
+	for id := range knownHit {
+		knownL = append(knownL, id)
+	}
+	sort.Strings(knownL)
+	ev := map[string]interface{}{
+		"property_id": prop,
+		"tier":        tier,
+		"seed":        seed,
+		"level":       "proof",
+		"coverage": map[string]interface{}{
+			"obligations":              nObl,
+			"discharged":               nDis,
+			"checker_cmd":              fmt.Sprintf("/verif/bin/govc check %s --tier %s", prop, tier),
+			"trusted_base":             trustedBase,
+			"functions_under_contract": underContract,
+			"functions_proved":         provedL,
+			"interface_contracts":      ifaceOnly,
+			"trusted_contracts":        trusted,
+			"lemmas":                   lemmas,
+			"by_backend":               byBackend,
+			"solver_time_s":            float64(solverMs) / 1000.0,
+			"samples":                  samples,
+			"vacuity":                  map[string]int{"covers": nCover, "covers_satisfiable_or_unrefuted": nCoverOK},
+			"abstracted":               sortedKeys(abstr),
+			"bit_rewrite_rules_used":   bvRules,
+			"known_finding_obligations": knownL,
+			"engine_errors":            engineErrs,
+			"bounded_standins":         []string{},
+		},
+		"assumptions": sortedKeys(assumed),
+		"wall_s":      time.Since(start).Seconds(),
+		"violations":  len(seenV),
+	}
+	os.MkdirAll(filepath.Join(verif, "evidence"), 0o755)
+	b, _ := json.MarshalIndent(ev, "", " ")
+	os.WriteFile(filepath.Join(verif, "evidence", prop+".json"), append(b, '\n'), 0o644)
+	fmt.Printf("%s: %d obligations, %d discharged, %d known findings, %d violations; %d functions under contract; load %.1fs, total %.1fs\n",
+		prop, nObl, nDis, len(knownHit), len(seenV), len(underContract), loadS, time.Since(start).Seconds())
+	return exit
+}
+
+// writeReplay writes the replay file of a failed obligation; returns the
+// suffix of the VIOLATION line ("" when a failing input was replayed on the
+// real code, "no-failing-input-found" otherwise).
+func writeReplay(eng *Engine, verif, prop string, r *Result, path string) string {
+	smt := readFile(r.File)
+	rep := map[string]interface{}{
+		"property":   prop,
+		"obligation": r.Obl.Func + " :: " + r.Obl.Name,
+		"kind":       r.Obl.Kind,
+		"source":     fmt.Sprintf("%s:%d", r.Obl.Pos.Filename, r.Obl.Pos.Line),
+		"clause":     r.Obl.Note,
+		"status":     r.Status,
+		"backend":    r.Backend,
+		"solver_output": strings.TrimSpace(r.Output),
+		"static_reason": r.Obl.Static,
+		"smt2":       smt,
+	}
+	suffix := "no-failing-input-found"
+	if found, detail := tryReplay(eng, verif, prop, r); found {
+		suffix = ""
+		rep["replay"] = detail
+	} else if detail != nil {
+		rep["replay_attempt"] = detail
+	}
+	b, _ := json.MarshalIndent(rep, "", " ")
+	os.WriteFile(path, append(b, '\n'), 0o644)
+	return suffix
 }
